@@ -466,37 +466,31 @@ def _helpers(ctx):
                 raise KeyError(t)
             return atoms
 
-        def conds_of(node):
-            out = []
-            for t, o in vcfg.necessary_conditions(node):
-                out.append((vT.of(t), o))
-            return out
-
-        rc = [conds_of(r) for r in raises]
-        tc = [(conds_of(r), t) for r, t in rets]
+        from ..chunks import Unknown as _Unk, ev as _ev
         bad = []
         try:
             for r in (True, False):
                 for u in (True, False):
                     for n in (0, 1, 2, 3):
                         at = atoms_for(r, u, n)
-                        rej = any(all(bool(tt_eval(t, at)) == o
-                                      for t, o in cs) for cs in rc)
+
+                        def decide(test, at=at):
+                            return bool(_ev(vT.of(test), at))
+                        vis = vcfg.visited_under(vcfg.entry.id, decide)
+                        rej = any(vcfg.node_of(x).id in vis for x in raises)
                         want_rej = (r and n == 0) or (u and n > 1)
                         if rej != want_rej:
                             bad.append(("raise", r, u, n, rej))
                             continue
                         if rej:
                             continue
-                        hit = [t for cs, t in tc
-                               if all(bool(tt_eval(c, at)) == o
-                                      for c, o in cs)]
+                        hit = [t for x, t in rets
+                               if vcfg.node_of(x).id in vis]
                         res = None
                         if len(hit) == 1:
                             res = hit[0]
                             while res[0] == "ifexp":
-                                res = res[2] if tt_eval(res[1], at) \
-                                    else res[3]
+                                res = res[2] if _ev(res[1], at) else res[3]
                         if u:
                             exp = ("sub", FOUND, ("const", 0)) if n > 0 \
                                 else ("const", None)
@@ -507,7 +501,7 @@ def _helpers(ctx):
                         if res != exp:
                             bad.append(("result", r, u, n,
                                         show(res, 60) if res else None))
-        except (TTUnknown, KeyError) as e:
+        except (_Unk, KeyError) as e:
             raise AnalysisError(
                 f"{f.qual}: a condition of find_column is outside the "
                 f"evaluated fragment: {str(e)[:100]}")
